@@ -16,6 +16,7 @@ package presence
 
 import (
 	"context"
+	encbinary "encoding/binary"
 	"time"
 
 	"github.com/emitter-io/emitter/internal/message"
@@ -80,9 +81,12 @@ func (s *Service) OnSurvey(queryType string, payload []byte) ([]byte, bool) {
 		return nil, false
 	}
 
-	// Decode the request
+	// Decode the request (an ssid can not have more elements than the payload has bytes)
 	var target message.Ssid
-	if err := binary.Unmarshal(payload, &target); err != nil {
+	if n, k := encbinary.Uvarint(payload); k <= 0 || n > uint64(len(payload)-k) {
+		return nil, false
+	}
+	if err := binary.Unmarshal(payload, &target); err != nil || len(target) < 2 {
 		return nil, false
 	}
 
